@@ -110,3 +110,25 @@ Section Coupling.
     unfold bins. cbn [c_nd c_lower c_width c' set_other]. rewrite Hx. reflexivity.
   Qed.
 End Coupling.
+
+(* The other biases' force written as the pipeline routes it (C08_fb_routing): an fb part (ordinary biases) plus an
+   fb_actual part (bypassing biases such as harmonicWalls); colvar::f = ABF force + both parts, and f_old = f is saved
+   after both were added (C04's st_f / st_fold).  Any history of the two parts leaves the ABF estimator unchanged. *)
+Definition with_other (nd : nat) (i : @abf_in R) (on oa : @vec R) : @abf_in R :=
+  mkIn (i_x i) (i_e i) (vbuild nd (fun k => vget Rops on k + vget Rops oa k)) (i_j i) (i_boundary i) (i_apply i).
+
+Theorem abf_coupling_routed (c : @abf_cfg R) (o' : list bool) (hr : list (@abf_in R * (@vec R * @vec R))) (b : idx) :
+  c_same_step c = false ->
+  (forall k, (k < c_nd c)%nat -> bget (c_subtract c) k = true) ->
+  wf_cfg c -> Forall (fun x => i_apply (fst x) = true) hr ->
+  let h := map fst hr in
+  let h' := map (fun x => with_other (c_nd c) (fst x) (fst (snd x)) (snd (snd x))) hr in
+  s_cnt (fst (abf_run Rops (set_other c o') h')) b = s_cnt (fst (abf_run Rops c h)) b /\
+  forall k, (k < c_nd c)%nat ->
+    vget Rops (s_sum (fst (abf_run Rops (set_other c o') h')) b) k = vget Rops (s_sum (fst (abf_run Rops c h)) b) k.
+Proof.
+  intros Hlag Hsub Hwf Ha. cbn zeta.
+  apply (abf_data_independent_of_other_biases c o' Hlag Hsub); [exact Hwf|].
+  induction Ha as [|x l Hx Hl IH]; cbn [map]; constructor; [|exact IH].
+  unfold same_but_other, with_other. cbn. repeat split; try reflexivity; exact Hx.
+Qed.
